@@ -229,9 +229,9 @@ Section Main.
       apply nth_error_lt in Hk. lia.
   Qed.
 
-  Lemma loop3_fold_raise c f1 f2 e l : fold_left (loop3_step c ms f1 f2) l (Raise e) = Raise e.
+  Lemma loop3_fold_raise c0 f1 f2 e l : fold_left (loop3_step c0 wl ms (loop1 ms) f1 f2) l (Raise e) = Raise e.
   Proof. induction l; simpl; auto. Qed.
-  Lemma loop3_fold_fuel c f1 f2 l : fold_left (loop3_step c ms f1 f2) l OutOfFuel = OutOfFuel.
+  Lemma loop3_fold_fuel c0 f1 f2 l : fold_left (loop3_step c0 wl ms (loop1 ms) f1 f2) l OutOfFuel = OutOfFuel.
   Proof. induction l; simpl; auto. Qed.
 
   Lemma triv_done s k m : Inv3 ms free s -> nth_error ms k = Some m -> trivb m = true ->
@@ -298,7 +298,7 @@ Section Main.
     pose proof (loop2_spec ms free ck wl WF Hkey Hw c (map m_dst ms) [] _ fi ff (inv2_0 ms free ck ch0 WF Hch0)) as L2.
     simpl app in L2. specialize (L2 ND).
     destruct (fold_left (loop2_step c ck wl ms (loop1 ms) (leaves (loop1 ms))) (map m_dst ms)
-                (Ok (mkS [] (results0 (loop1 ms)) (children0 (loop1 ms)), fi, ff))) as [[[s2 fi'] ff']|e|];
+                (Ok (mkS [] (results0 (loop1 ms)) ch0, fi, ff))) as [[[s2 fi'] ff']|e|];
       cbn [bind].
     2:{ destruct L2 as [-> (m & Im & Tm & Wm)]. split; [reflexivity|]. right. left. exists m.
         split; [assumption|]. split; [now apply trivb_false|assumption]. }
@@ -387,7 +387,7 @@ Section Main.
     pose proof (loop2_spec ms free ck wl WF Hkey Hw c (map m_dst ms) [] _ fi ff (inv2_0 ms free ck ch0 WF Hch0)) as L2.
     simpl app in L2. specialize (L2 ND).
     destruct (fold_left (loop2_step c ck wl ms (loop1 ms) (leaves (loop1 ms))) (map m_dst ms)
-                (Ok (mkS [] (results0 (loop1 ms)) (children0 (loop1 ms)), fi, ff))) as [[[s2 fi'] ff']|e|];
+                (Ok (mkS [] (results0 (loop1 ms)) ch0, fi, ff))) as [[[s2 fi'] ff']|e|];
       cbn [bind].
     2:{ destruct L2 as [-> _]. reflexivity. }
     2:{ destruct L2. }
@@ -428,40 +428,6 @@ Section Main.
     - apply nodupb_NoDup. apply NoDup_filter. exact ND.
   Qed.
 End Main.
-
-(* ================================================================== theorems *)
-Theorem lower_repaired_simultaneous ms free is vs :
-  wf ms free -> lower repaired ms free = Ok (is, vs) -> simultaneous ms is.
-Proof.
-  intros WF H. unfold lower in H. rewrite (wf_verify ms free WF) in H.
-  pose proof (rewrite_repaired_spec ms free WF) as S. rewrite H in S. apply S.
-Qed.
-Theorem lower_repaired_frame ms free is vs :
-  wf ms free -> lower repaired ms free = Ok (is, vs) -> frame ms free is.
-Proof.
-  intros WF H. unfold lower in H. rewrite (wf_verify ms free WF) in H.
-  pose proof (rewrite_repaired_spec ms free WF) as S. rewrite H in S. apply S.
-Qed.
-Theorem lower_repaired_fails_when_impossible ms free :
-  wf ms free ->
-  (exists m, In m ms /\ (is_alloc (m_src m) = false \/ is_alloc (m_dst m) = false))
-  \/ (exists d, on_cycle ms d /\ is_float d = true /\ forall f, In f free -> is_float f = false) ->
-  lower repaired ms free = Raise EPassFailed.
-Proof.
-  intros WF H. unfold lower. rewrite (wf_verify ms free WF). now apply rewrite_repaired_fails.
-Qed.
-Theorem lower_repaired_failure ms free :
-  wf ms free ->
-  match lower repaired ms free with
-  | Ok _ => True
-  | Raise e => e = EPassFailed /\ fail_cause ms free
-  | OutOfFuel => False
-  end.
-Proof.
-  intros WF. unfold lower. rewrite (wf_verify ms free WF).
-  pose proof (rewrite_repaired_spec ms free WF) as S.
-  destruct (rewrite repaired ms free) as [[is vs]|e|]; auto.
-Qed.
 
 (* ================================================================== the pinned tree
    The code as it is (`unchanged`) agrees with the repaired algorithm whenever every cycle of
@@ -524,7 +490,7 @@ Section Partial.
     assert (Hk : nth_error ms (length pre) = Some m).
     { rewrite E, nth_error_app2 by lia. now rewrite Nat.sub_diag. }
     rewrite (loop3_step_agree s (length pre) m xi xf K Hk).
-    pose proof (loop3_step_spec ms free c ck wl WF Hkey Hw Hxo s (length pre) m K Hk) as St.
+    pose proof (loop3_step_spec ms free c wl WF Hw Hrf Hxo s (length pre) m K Hk) as St.
     destruct (loop3_step c wl ms (loop1 ms) fi ff (Ok s) (length pre, m)) as [s1|e|].
     - destruct St as (K1 & _ & _ & _).
       specialize (IH (pre ++ [m]) s1). rewrite app_length in IH. simpl in IH.
@@ -539,7 +505,8 @@ Section Partial.
     unfold rewrite_gen.
     destruct (negb (forallb (fun m => is_alloc (m_src m) && is_alloc (m_dst m)) ms)); [reflexivity|].
     set (s0 := mkS [] (results0 (loop1 ms)) ch0).
-    pose proof (loop2_core ms ck wl cu (map m_dst ms) s0 fi ff fi ff) as Co.
+    pose proof (eq_trans (loop2_core ms ck wl cu (map m_dst ms) s0 fi ff fi ff)
+                         (eq_sym (loop2_core ms ck wl c (map m_dst ms) s0 fi ff fi ff))) as Co.
     pose proof (loop2_spec ms free ck wl WF Hkey Hw cu (map m_dst ms) [] s0 fi ff (inv2_0 ms free ck ch0 WF Hch0)) as Lu.
     pose proof (loop2_spec ms free ck wl WF Hkey Hw c (map m_dst ms) [] s0 fi ff (inv2_0 ms free ck ch0 WF Hch0)) as Lr.
     simpl app in Lu, Lr. specialize (Lu ND). specialize (Lr ND).
@@ -556,6 +523,239 @@ Section Partial.
   Qed.
 
 End Partial.
+
+(* ================================================================== instantiations *)
+Lemma map_snd_combine_seq {A} (l : list A) : forall k, map snd (combine (seq k (length l)) l) = l.
+Proof. induction l as [|x l IH]; intros k; simpl; [reflexivity|]. now rewrite IH. Qed.
+
+Definition cnt_pred (ck : value -> Z) (k : Z) (m : move) : bool := negb (trivb m) && (ck (m_value m) =? k).
+
+(* C20-4: the counter keyed by register counts the non-trivial moves reading that register *)
+Lemma children_by_reg_gen (ims : list (nat * move)) : forall f k,
+  fold_left (fun f im => let m := snd im in
+                         if m_src m =? m_dst m then f else upd f (m_src m) (f (m_src m) + 1)) ims f k
+  = f k + Z.of_nat (length (filter (cnt_pred vreg k) (map snd ims))).
+Proof.
+  induction ims as [|[i m] r IH]; intros f k; simpl; [lia|].
+  rewrite IH. unfold cnt_pred at 2, trivb. simpl.
+  destruct (m_src m =? m_dst m); simpl; [lia|].
+  unfold upd. rewrite (Z.eqb_sym (m_src m) k). destruct (Z.eqb_spec k (m_src m)) as [->|]; simpl; lia.
+Qed.
+Lemma children_by_reg_spec ms k :
+  children_by_reg (combine (seq 0 (length ms)) ms) k = Z.of_nat (length (filter (cnt_pred vreg k) ms)).
+Proof. unfold children_by_reg. rewrite children_by_reg_gen, map_snd_combine_seq. reflexivity. Qed.
+
+(* C20-5: the width table keyed by output register *)
+Lemma width_tbl_notin l : forall f d, ~ In d (map m_dst l) ->
+  fold_left (fun f m => upd f (m_dst m) (Some (m_w m))) l f d = f d.
+Proof.
+  induction l as [|x r IH]; intros f d H; simpl; [reflexivity|].
+  rewrite IH by (intros K; apply H; now right). apply upd_other. intros E; apply H; now left.
+Qed.
+Lemma width_tbl_spec l : forall f m, NoDup (map m_dst l) -> In m l ->
+  fold_left (fun f m => upd f (m_dst m) (Some (m_w m))) l f (m_dst m) = Some (m_w m).
+Proof.
+  induction l as [|x r IH]; intros f m ND I; [destruct I|]. simpl in *.
+  apply NoDup_cons_iff in ND as [Hx ND]. destruct I as [->|I].
+  - rewrite width_tbl_notin by assumption. apply upd_same.
+  - now apply IH.
+Qed.
+
+(* the SSA-value-keyed lookups of the tree with C20-1 + C20-2 under `wf` *)
+Lemma width_val ms free m : wf ms free -> In m ms -> src_type_by_src ms (vid (m_value m)) = Some (m_w m).
+Proof.
+  intros WF I. simpl. destruct (wof_In ms m I) as (m' & I' & E & H). rewrite H. f_equal.
+  now apply (wf_width _ _ WF).
+Qed.
+
+Definition wl_val (ms : list move) : value -> reg -> option Z := fun src _ => src_type_by_src ms (vid src).
+Definition wl_dst (ms : list move) : value -> reg -> option Z := fun _ d => width_by_dst_tbl ms d.
+Definition ims (ms : list move) := combine (seq 0 (length ms)) ms.
+(* C20-1, 2, 4, 5 without C20-3: equal to `repaired_all` when no move overwrites `zero` *)
+Definition repaired_reg : cfg := mkCfg false false false true true.
+
+Lemma rewrite_val_eq c ms free : zero_first c = false -> cnt_by_reg c = false -> width_by_dst c = false ->
+  rewrite c ms free = rewrite_gen ms free c vid (wl_val ms) (children0 (loop1 ms)).
+Proof.
+  intros Z B W. unfold rewrite, rewrite_gen, tables_of, children_of, kept, tables_of. rewrite Z, B.
+  unfold bind at 1.
+  replace (ckey c) with vid by (unfold ckey; rewrite B; reflexivity).
+  replace (wlook c ms) with (wl_val ms) by (unfold wlook, wl_val; rewrite W; reflexivity).
+  reflexivity.
+Qed.
+Lemma rewrite_reg_eq ms free :
+  rewrite repaired_reg ms free = rewrite_gen ms free repaired_reg vreg (wl_dst ms) (children_by_reg (ims ms)).
+Proof. reflexivity. Qed.
+
+(* without a non-trivial move into `zero`, C20-3 changes nothing *)
+Lemma zero_pass_noop l : forall e rs, (forall im, In im l -> zero_move (snd im) = false) ->
+  zero_pass l e rs = Ok (e, rs).
+Proof.
+  induction l as [|[i m] r IH]; intros e rs H; simpl; [reflexivity|].
+  pose proof (H (i, m) (or_introl eq_refl)) as Hm. simpl in Hm. rewrite Hm.
+  apply IH. intros im I. apply H. now right.
+Qed.
+Lemma filter_all {A} (f : A -> bool) l : (forall x, In x l -> f x = true) -> filter f l = l.
+Proof.
+  induction l as [|x l IH]; intros H; simpl; [reflexivity|].
+  rewrite (H x (or_introl eq_refl)). f_equal. apply IH. intros y I. apply H. now right.
+Qed.
+Lemma rewrite_all_eq ms free : (forall m, In m ms -> m_dst m = ZERO -> m_src m = ZERO) ->
+  rewrite repaired_all ms free = rewrite repaired_reg ms free.
+Proof.
+  intros HZ.
+  assert (NZ : forall im, In im (ims ms) -> zero_move (snd im) = false).
+  { intros [i m] I. apply in_combine_r in I. simpl. unfold zero_move.
+    destruct (Z.eqb_spec (m_dst m) ZERO) as [E|]; [|reflexivity].
+    rewrite (HZ m I E), E. reflexivity. }
+  assert (F : filter (fun im => negb (zero_move (snd im))) (ims ms) = ims ms).
+  { apply filter_all. intros im I. now rewrite (NZ im I). }
+  unfold rewrite, tables_of, children_of, kept, tables_of. cbn [zero_first cnt_by_reg repaired_all repaired_reg].
+  unfold loop1z. fold (ims ms). rewrite F. rewrite zero_pass_noop by assumption. reflexivity.
+Qed.
+
+(* ================================================================== theorems *)
+Section Inst.
+  Variable ms : list move.
+  Variable free : list reg.
+
+  (* the tree with C20-1 + C20-2 (keys by SSA value) under `wf` *)
+  Lemma repaired_spec : wf ms free ->
+    match rewrite repaired ms free with
+    | Ok (is, _) => simultaneous ms is /\ frame ms free is
+    | Raise e => e = EPassFailed /\ fail_cause ms free
+    | OutOfFuel => False
+    end.
+  Proof.
+    intros WF. rewrite (rewrite_val_eq repaired ms free eq_refl eq_refl eq_refl).
+    apply (rewrite_gen_spec ms free repaired vid (wl_val ms) (children0 (loop1 ms)) (wf_wf_all _ _ WF)); auto.
+    - intros a b Ia Ib. apply (wf_ssa _ _ WF a b Ia Ib).
+    - intros m Im _. unfold wl_val. now apply (width_val ms free).
+    - intros k. apply (children0_spec ms).
+  Qed.
+  Lemma repaired_fails : wf ms free ->
+    (exists m, In m ms /\ (is_alloc (m_src m) = false \/ is_alloc (m_dst m) = false))
+    \/ (exists d, on_cycle ms d /\ is_float d = true /\ forall f, In f free -> is_float f = false) ->
+    rewrite repaired ms free = Raise EPassFailed.
+  Proof.
+    intros WF. rewrite (rewrite_val_eq repaired ms free eq_refl eq_refl eq_refl).
+    apply (rewrite_gen_fails ms free repaired vid (wl_val ms) (children0 (loop1 ms)) (wf_wf_all _ _ WF)); auto.
+    - intros a b Ia Ib. apply (wf_ssa _ _ WF a b Ia Ib).
+    - intros m Im _. unfold wl_val. now apply (width_val ms free).
+    - intros k. apply (children0_spec ms).
+  Qed.
+
+  (* the tree with all repairs under the weaker `wf_all` *)
+  Lemma all_spec : wf_all ms free ->
+    match rewrite repaired_all ms free with
+    | Ok (is, _) => simultaneous ms is /\ frame ms free is
+    | Raise e => e = EPassFailed /\ fail_cause ms free
+    | OutOfFuel => False
+    end.
+  Proof.
+    intros WF. rewrite (rewrite_all_eq ms free (wa_zero _ _ WF)), rewrite_reg_eq.
+    apply (rewrite_gen_spec ms free repaired_reg vreg (wl_dst ms) (children_by_reg (ims ms)) WF); auto.
+    - intros a b _ _. reflexivity.
+    - intros m Im _. unfold wl_dst, width_by_dst_tbl. apply width_tbl_spec; [apply (wa_dsts _ _ WF)|assumption].
+    - intros k. apply children_by_reg_spec.
+  Qed.
+  Lemma all_fails : wf_all ms free ->
+    (exists m, In m ms /\ (is_alloc (m_src m) = false \/ is_alloc (m_dst m) = false))
+    \/ (exists d, on_cycle ms d /\ is_float d = true /\ forall f, In f free -> is_float f = false) ->
+    rewrite repaired_all ms free = Raise EPassFailed.
+  Proof.
+    intros WF. rewrite (rewrite_all_eq ms free (wa_zero _ _ WF)), rewrite_reg_eq.
+    apply (rewrite_gen_fails ms free repaired_reg vreg (wl_dst ms) (children_by_reg (ims ms)) WF); auto.
+    - intros a b _ _. reflexivity.
+    - intros m Im _. unfold wl_dst, width_by_dst_tbl. apply width_tbl_spec; [apply (wa_dsts _ _ WF)|assumption].
+    - intros k. apply children_by_reg_spec.
+  Qed.
+End Inst.
+
+Theorem lower_repaired_simultaneous ms free is vs :
+  wf ms free -> lower repaired ms free = Ok (is, vs) -> simultaneous ms is.
+Proof.
+  intros WF H. unfold lower in H. rewrite (wf_verify ms free (wf_wf_all _ _ WF)) in H.
+  pose proof (repaired_spec ms free WF) as S. rewrite H in S. apply S.
+Qed.
+Theorem lower_repaired_frame ms free is vs :
+  wf ms free -> lower repaired ms free = Ok (is, vs) -> frame ms free is.
+Proof.
+  intros WF H. unfold lower in H. rewrite (wf_verify ms free (wf_wf_all _ _ WF)) in H.
+  pose proof (repaired_spec ms free WF) as S. rewrite H in S. apply S.
+Qed.
+Theorem lower_repaired_fails_when_impossible ms free :
+  wf ms free ->
+  (exists m, In m ms /\ (is_alloc (m_src m) = false \/ is_alloc (m_dst m) = false))
+  \/ (exists d, on_cycle ms d /\ is_float d = true /\ forall f, In f free -> is_float f = false) ->
+  lower repaired ms free = Raise EPassFailed.
+Proof.
+  intros WF H. unfold lower. rewrite (wf_verify ms free (wf_wf_all _ _ WF)). now apply repaired_fails.
+Qed.
+Theorem lower_repaired_failure ms free :
+  wf ms free ->
+  match lower repaired ms free with
+  | Ok _ => True
+  | Raise e => e = EPassFailed /\ fail_cause ms free
+  | OutOfFuel => False
+  end.
+Proof.
+  intros WF. unfold lower. rewrite (wf_verify ms free (wf_wf_all _ _ WF)).
+  pose proof (repaired_spec ms free WF) as S.
+  destruct (rewrite repaired ms free) as [[is vs]|e|]; auto.
+Qed.
+
+(* ---- all repairs (C20-1 .. C20-5), under the weaker hypotheses `wf_all` ---- *)
+Theorem lower_all_simultaneous ms free is vs :
+  wf_all ms free -> lower repaired_all ms free = Ok (is, vs) -> simultaneous ms is.
+Proof.
+  intros WF H. unfold lower in H. rewrite (wf_verify ms free WF) in H.
+  pose proof (all_spec ms free WF) as S. rewrite H in S. apply S.
+Qed.
+Theorem lower_all_frame ms free is vs :
+  wf_all ms free -> lower repaired_all ms free = Ok (is, vs) -> frame ms free is.
+Proof.
+  intros WF H. unfold lower in H. rewrite (wf_verify ms free WF) in H.
+  pose proof (all_spec ms free WF) as S. rewrite H in S. apply S.
+Qed.
+Theorem lower_all_failure ms free :
+  wf_all ms free ->
+  match lower repaired_all ms free with
+  | Ok _ => True
+  | Raise e => e = EPassFailed /\ fail_cause ms free
+  | OutOfFuel => False
+  end.
+Proof.
+  intros WF. unfold lower. rewrite (wf_verify ms free WF).
+  pose proof (all_spec ms free WF) as S.
+  destruct (rewrite repaired_all ms free) as [[is vs]|e|]; auto.
+Qed.
+Theorem lower_all_fails_when_impossible ms free :
+  wf_all ms free ->
+  (exists m, In m ms /\ (is_alloc (m_src m) = false \/ is_alloc (m_dst m) = false))
+  \/ (exists d, on_cycle ms d /\ is_float d = true /\ forall f, In f free -> is_float f = false) ->
+  lower repaired_all ms free = Raise EPassFailed.
+Proof.
+  intros WF H. unfold lower. rewrite (wf_verify ms free WF). now apply all_fails.
+Qed.
+Theorem lower_all_success ms free :
+  wf_all ms free -> ~ fail_cause ms free -> exists is vs, lower repaired_all ms free = Ok (is, vs).
+Proof.
+  intros WF NF. pose proof (lower_all_failure ms free WF) as F.
+  destruct (lower repaired_all ms free) as [[is vs]|e|]; [eauto|destruct F; contradiction|destruct F].
+Qed.
+
+Lemma lower_agree ms free : wf ms free -> every_cycle_has_free ms free ->
+  lower unchanged ms free = lower repaired ms free.
+Proof.
+  intros WF HP. unfold lower.
+  rewrite (rewrite_val_eq unchanged ms free eq_refl eq_refl eq_refl),
+          (rewrite_val_eq repaired ms free eq_refl eq_refl eq_refl).
+  rewrite (rewrite_agree ms free repaired unchanged vid (wl_val ms) (children0 (loop1 ms)) (wf_wf_all _ _ WF)); auto.
+  - intros a b Ia Ib. apply (wf_ssa _ _ WF a b Ia Ib).
+  - intros m Im _. unfold wl_val. now apply (width_val ms free).
+  - intros k. apply (children0_spec ms).
+Qed.
 
 (* ================================================================== the pinned tree: theorems *)
 Theorem lower_unchanged_partial ms free :
@@ -689,3 +889,32 @@ Proof.
     + exists (mkM 0 s1 s2 32). simpl. intuition discriminate.
     + exists (mkM 1 s2 s1 32). simpl. intuition discriminate.
 Qed.
+
+(* ---- the witnesses of kf-3 .. kf-6 under all repairs ---- *)
+Definition ms_shared : list move := [mkM 0 s2 s1 32; mkM 1 s1 s2 32; mkM 2 s1 s3 32].
+Lemma wf_all_shared : wf_all ms_shared [] /\ ~ wf ms_shared [].
+Proof.
+  split.
+  - constructor; simpl.
+    + intros m [<-|[<-|[<-|[]]]]; reflexivity.
+    + repeat constructor; simpl; intuition discriminate.
+    + intros f m [].
+    + intros [].
+    + intros m [<-|[<-|[<-|[]]]]; simpl; intros H; discriminate.
+  - intros W. pose proof (wf_ssa _ _ W (mkM 1 s1 s2 32) (mkM 2 s1 s3 32)) as H. simpl in H.
+    assert (E : 1 = 2) by (apply H; auto). discriminate.
+Qed.
+Example all_shared : exists is vs, lower repaired_all ms_shared [] = Ok (is, vs)
+  /\ map (get (exec is rho0)) [s1; s2; s3] = map (get rho0) [s2; s1; s1].
+Proof. eexists. eexists. split; [vm_compute; reflexivity|]. vm_compute. reflexivity. Qed.
+Example all_mixed_width : exists is vs, lower repaired_all [mkM 0 fs1 fs2 64; mkM 0 fs1 fs1 32] [] = Ok (is, vs)
+  /\ get (exec is (fun _ => 5)) fs2 = 5.
+Proof. eexists. eexists. split; [vm_compute; reflexivity|]. vm_compute. reflexivity. Qed.
+(* `zero` as a repeated destination (outside wf_all; swept exhaustively by the harness) *)
+Example all_duplicate_zero : exists is vs,
+  lower repaired_all [mkM 0 ZERO s1 64; mkM 0 ZERO s2 64; mkM 1 s1 ZERO 32; mkM 2 s2 ZERO 64] [] = Ok (is, vs)
+  /\ map (get (exec is rho0)) [s1; s2; ZERO; s3] = [0; 0; 0; get rho0 s3].
+Proof. eexists. eexists. split; [vm_compute; reflexivity|]. vm_compute. reflexivity. Qed.
+Example all_zero_swap : exists is vs, lower repaired_all [mkM 0 ZERO s2 64; mkM 1 s2 ZERO 64] [] = Ok (is, vs)
+  /\ get (exec is rho0) s2 = 0.
+Proof. eexists. eexists. split; [vm_compute; reflexivity|]. vm_compute. reflexivity. Qed.
